@@ -107,6 +107,8 @@ def run(tier, seed):
             versions = [v for v in dict.fromkeys(window + versions[:2]) if '-' in v or v == top or tuple(int(x) for x in v.split('+')[0].split('.')) <= latest_v[:3]]
         if rnd.random() < 0.1:
             versions.append(rnd.choice(['garbage', '1.0', 'v1.0.0', '']))
+        if rnd.random() < 0.08:
+            versions.append(rnd.choice(['99.1.0+snapshot-1', '99.1.0+curl-8.9.0']))      # a stable release whose build metadata contains a hyphen
         tags = None
         spec = printed
         unresolved = False
@@ -247,6 +249,65 @@ def run(tier, seed):
                 rep.known(KNOWN_IDS.get(v, f'class{v}'), {'input': ci['in'], 'impl': ci['out']})
         rep.cov['streams']['oracle_' + name] = {'cases': len(terms), 'by_code': counts}
     rep.cov['streams']['verdict'] = {'cases': len(cases), 'cells': cells, 'correspondence_cases': len(corr_terms), 'disagreements': len(bad)}
+    # pyproject.toml: the verdict path with the PEP 440 matcher.  Facts come from the matcher's own answers (stream 'pypi'
+    # of C02: version_exists / compare_to_latest per version), the expected diagnostic is the decision table over them -
+    # this ties generate_diagnostics to the PyPI matcher (registry type -> matcher wiring, message texts) like the Coq
+    # theorem C01_table_pypi does for the model
+    from . import c02 as C2
+    prnd = random.Random(seed * 31 + 7)
+    psend = []
+    for _ in range(120 if quick else 3000):
+        spec = C2.rnd_pyspec(prnd)
+        psend.append({'spec': spec, 'base': C2.pypi_base(spec), 'versions': prnd.sample(C2.PY_VERS, prnd.choice([0, 1, 3, 8])),
+                      # the registry's own latest (info.version), now and then something that is not a PEP 440 version
+                      'tag': prnd.choice(['2004d', 'x', '1.0-final-', '']) if prnd.random() < 0.12 else None})
+    # fixed corpus: the witness of C01-pypi-empty-spec-hides-malformed-latest and its non-empty neighbour
+    psend += [{'spec': '', 'base': C2.pypi_base(''), 'versions': ['1.0'], 'tag': '2004d'}, {'spec': '>=1.0', 'base': C2.pypi_base('>=1.0'), 'versions': ['1.0'], 'tag': '2004d'}]
+    pobs, perr = C2.harness_cases('pypi', psend)
+    pver, perr2 = C.run_harness('verdict', 0, 0, stdin='\n'.join(json.dumps({'eco': 'pypi', 'name': 'requests', 'spec': x['spec'], 'ignore_pre': False,
+                                'fills': ([{'op': 'store', 'vs': x['versions']}] if x['versions'] else []) +
+                                         ([{'op': 'tags', 'm': [['latest', x['tag']]]}] if x['tag'] is not None and x['versions'] else [])}) for x in psend) + '\n', timeout=3000)
+    if perr or perr2:
+        rep.broke('harness pypi / verdict (pyproject)', perr or perr2)
+    npy = 0
+    for x, ob, vd in zip(psend, pobs or [], pver or []):
+        if ob['out'] == 'panic' or vd['out'] == 'panic':
+            continue              # C06's business (pep440 / pep508 panics are listed there)
+        L = vd['out']['latest']
+        diags = [[dd[0], dd[1]] for dd in vd['out']['diags']]
+        by_v = {o_['v']: o_ for o_ in ob['out']['obs']}
+        if L is None:
+            want = []
+        elif x['tag'] is not None and L == x['tag']:
+            # the cached latest is not a version: 'Invalid version format' is due whatever the spec is
+            want = [[1, 'Invalid version format: ' + x['spec']]]
+            if x['spec'] == '' and diags == []:
+                rep.known('C01-pypi-empty-spec-hides-malformed-latest', {'input': x, 'impl': vd['out']})
+                npy += 1
+                continue
+        elif L not in by_v:
+            continue
+        else:
+            cmpL = by_v[L]['compare']
+            if x['spec'] == '':
+                some = len(x['versions']) > 0
+            else:
+                some = any(o_['exists'] for o_ in ob['out']['obs'])
+            if cmpL == 3:
+                want = [[1, 'Invalid version format: ' + x['spec']]]
+            elif not some:
+                want = [[1, f'Version {x["spec"]} not found in registry']]
+            elif cmpL == 1:
+                want = [[2, f'Update available: {x["spec"]} -> {L}']]
+            else:
+                want = []
+        npy += 1
+        if x['spec'].lower() in KNOWN_TAGS:
+            want = []
+        if diags != want:
+            rep.violation(f'pyproject: spec {x["spec"]!r}, cached {x["versions"]}, latest {L!r}: published {diags}, the decision table over the PEP 440 matcher gives {want}',
+                          {'input': x, 'impl': vd['out'], 'matcher': ob['out']})
+    rep.cov['streams']['pypi_verdict'] = {'cases': npy}
     rep.cov.update({'evaluations': len(cases), 'distinct_nontrivial': len({(c['in']['eco'], c['in']['spec'], json.dumps(c['out'])) for c in cases if c['out'] != 'panic' and c['out']['diags']}),
                     'rule': 'one dependency against a real Cache filled in random batch order (duplicates, tag maps replaced/emptied, optional nonexistent mark): specs from the npm / Cargo '
                             'range syntax, dist-tag names (cached, well-known uncached), junk and Go / GitHub Actions refs; non-trivial = distinct (ecosystem, spec, published diagnostic) with a diagnostic',
